@@ -6,6 +6,7 @@ from harness import execute, OracleFail, Skip
 from checks import common as cm
 
 ID = 'C01'
+HASHSEED_EVERY = {'quick': 1500, 'thorough': 5000}     # one case in so many is also run under other string-hash seeds (harness._run_hashseed_invariant)
 BUDGET = {'quick': 30000, 'thorough': 1500000}
 WALL = {'quick': 100, 'thorough': 1500}
 CHUNK = 60
